@@ -343,6 +343,11 @@ def search(ctx, verdict, problems):
     for _, sig, what, obj in sorted(found, key=lambda x: x[0])[:40]:
         if new:
             break
+        known = any(f.get('status', 'open') == 'open' and re.fullmatch(f['signature'], sig) for f in vlib.known_findings(ctx.pid))
+        key = sig.split(':')[0]
+        if not known and key in ('session-lost', 'two-records-for-one-user', 'two-valves-for-one-user'):
+            obj = shrink_case(ctx, obj, key)
+            obj['schedule'] = overlap.describe(obj['case']['steps'])
         if verdict.oracle_failure(sig, what, obj) == 'new':
             new = True
     ctx.notes.append('search over %d overlapped scenarios: %d oracle failures' % (len(cases), len(found)))
